@@ -92,6 +92,62 @@ pub fn run(tier: &str, seed: u64, dir: &str) {
     for (op, class) in corpus() {
         sink.case(&op, &eval(&op), class, true);
     }
+    // answer-queue boundaries: command streams whose answers fill the 15-byte queue to every
+    // level from 11 to 15 bytes, followed by one more command of each answer length
+    let mut k = 0u32;
+    for region in ["EU868", "US915", "AS923_1"] {
+        for a in 0..=5usize {
+            for b in 0..=7usize {
+                for c in 0..=4usize {
+                    let l = 3 * a + 2 * b + c;
+                    if !(11..=15).contains(&l) {
+                        continue;
+                    }
+                    for last in 0..3 {
+                        for rev in [false, true] {
+                            k += 1;
+                            if !thorough && k % 3 != 0 {
+                                continue;
+                            }
+                            let mut blocks: Vec<Vec<u8>> = vec![];
+                            for _ in 0..a {
+                                blocks.push(dev_status_req());
+                            }
+                            let mut adr = vec![];
+                            for _ in 0..b {
+                                adr.extend_from_slice(&link_adr_req(15, 15, if is_fixed(region) { 0x00ff } else { 0x0007 }, 0, 1));
+                            }
+                            if !adr.is_empty() {
+                                blocks.push(adr);
+                            }
+                            for i in 0..c {
+                                blocks.push(rx_timing_setup_req(1 + i as u8));
+                            }
+                            if rev {
+                                blocks.reverse();
+                            }
+                            let mut cmds: Vec<u8> = blocks.concat();
+                            match last {
+                                0 => cmds.extend_from_slice(&dev_status_req()),
+                                1 => cmds.extend_from_slice(&rx_param_setup_req(0, crate::macsuites::default_rx2(region).0)),
+                                _ => cmds.extend_from_slice(&rx_timing_setup_req(9)),
+                            }
+                            let mut h = Hist::new("C04", region, 20, 0, 5000 + k as u64, &[], None);
+                            h.abp().send(1, false, &[1]);
+                            if cmds.len() <= 15 && k % 2 == 0 {
+                                h.rx_auth("rx1", 5, 1, false, &cmds, None, &[]);
+                            } else {
+                                h.rx_auth("rx1", 5, 1, false, &[], Some(0), &cmds);
+                            }
+                            h.snap().send(1, false, &[2]).timeout().send(1, false, &[3]).timeout().snap();
+                            let op = h.done();
+                            sink.case(&op, &eval(&op), "answer-queue-boundary", true);
+                        }
+                    }
+                }
+            }
+        }
+    }
     let per_region = if thorough { 4000 } else { 220 };
     for region in REGIONS {
         for i in 0..per_region {
